@@ -5,6 +5,7 @@ mod rat;
 mod util;
 mod dynsrc;
 mod dynpipe;
+mod tok;
 mod props;
 
 use std::collections::HashSet;
